@@ -453,7 +453,12 @@ func solveAll(obls []*Obligation, dir string, timeout int, workers int, keep boo
 		go func() {
 			defer wg.Done()
 			for o := range ch {
-				o.Result = solve(o, dir, timeout, keep)
+				to := timeout
+				if strings.HasPrefix(o.Kind, "unclaimed:") && to > 3 {
+					// not part of the claim: a short attempt only (reported, never counted)
+					to = 3
+				}
+				o.Result = solve(o, dir, to, keep)
 			}
 		}()
 	}
